@@ -409,6 +409,8 @@ class Histogram1D(ObjectWithBinning, HistogramBase):
             )
             self._frequencies[ixbin] += weight
             try:
+                # python floats: numpy scalars of a narrow type would wrap around / round in the products
+                value, weight = float(value), float(weight)
                 self._stats = dataclasses.replace(
                     self.statistics,
                     weight=self.statistics.weight + weight,
